@@ -107,14 +107,24 @@ def restore(snap, dst):
     shutil.copytree(snap, dst, symlinks=True)
 
 
+TICK = 0.025
+
+
+def tick():
+    """File timestamps come from the kernel's coarse clock (a file that nobody stat()ed since its
+    last change is stamped with tick granularity, and that clock may lag the fine one by more than
+    10 ms).  Every scripted edit waits for more than one tick first, so that it is STRICTLY newer
+    than everything any tool wrote before it; equal-timestamp edits are outside every property."""
+    time.sleep(TICK)
+
+
 def modify(path):
-    """append a byte; the new mtime is strictly newer than everything written before"""
+    """append a byte; the new mtime (assigned by the kernel, like any editor's write) is strictly
+    newer than everything written before"""
+    tick()
     with open(path, 'ab') as f:
         f.write(b'\n/*mod*/')
-    now = time.time_ns()
-    st = os.stat(path)
-    if st.st_mtime_ns < now:
-        os.utime(path, ns=(now, now))
+    tick()
 
 
 def contents(root):
